@@ -60,18 +60,21 @@ PPrimary(toks, i) ==
        IF e.ok /\ e.i <= Len(toks) /\ toks[e.i].k = "rp" THEN [e EXCEPT !.i = e.i + 1] ELSE Fail
   ELSE Fail
 
-\* Domain predicate (shared with C09): a quotient chain  a / b / c  whose first two operands read as a
-\* day and a month is by design a date, not arithmetic.  Any year is taken to qualify, so that the
-\* arithmetic reading is only demanded where no date reading exists.
+\* Domain predicate (shared with C09): a quotient chain  a / b / c  whose operands read as a day, a month and a year
+\* (positive whole numbers, day <= 31, month <= 12) is by design a date, not arithmetic.  Whether the day exists in that
+\* month is not asked here, so that the arithmetic reading is only demanded where no date reading can be meant; a chain
+\* whose third operand is 0, negative or fractional has no date reading: it is arithmetic ( a / b / 0 = 0 ).
 IsNumTok(toks, i) == i <= Len(toks) /\ toks[i].k = "num"
 Trunc(m) == m[1] \div m[2]
+Whole(m) == m[1] % m[2] = 0
 DateLike(toks) ==
   \E i \in 1..(Len(toks) - 4) :
      /\ IsNumTok(toks, i) /\ IsNumTok(toks, i + 2) /\ IsNumTok(toks, i + 4)
      /\ IsOp(toks, i + 1, {"/"}) /\ IsOp(toks, i + 3, {"/"})
-     /\ "m" \in DOMAIN toks[i] /\ "m" \in DOMAIN toks[i + 2]
+     /\ "m" \in DOMAIN toks[i] /\ "m" \in DOMAIN toks[i + 2] /\ "m" \in DOMAIN toks[i + 4]
      /\ toks[i].sfx = "" /\ toks[i + 2].sfx = ""
-     /\ Trunc(toks[i].m) \in 1..31 /\ Trunc(toks[i + 2].m) \in 1..12
+     /\ Whole(toks[i].m) /\ Whole(toks[i + 2].m) /\ Whole(toks[i + 4].m)
+     /\ Trunc(toks[i].m) \in 1..31 /\ Trunc(toks[i + 2].m) \in 1..12 /\ Trunc(toks[i + 4].m) >= 1
 
 \* value of a whole line: ok = FALSE when the tokens are not a sentence of the grammar
 ArithLine(toks) ==
